@@ -236,3 +236,197 @@ for _p in _properties():
          clause="A parameter the body never reads while an exactly resolved callee has a same-named parameter that the call leaves at its "
                 "default is a dropped argument: the public signature promises a setting the implementation ignores. Reviewed exceptions: "
                 "generic.DROP_OK.")(_make_g2(_pid))
+
+
+# ---------------------------------------------------------------------------------------------------------------------------
+#  G3  no attribute is read that nothing defines
+#
+#  The universe of attribute names that exist: every def/class/assigned name, every `x.attr = ...` store, every parameter and
+#  keyword name in the whole package, plus dir() of the builtin types and of the standard-library modules the package imports
+#  (and of the classes and a few instances of those modules).  An attribute read in a property's anchor code whose name is in
+#  neither set raises AttributeError the first time the statement runs -- whatever the values.  Not judged: reads off a name
+#  that an import binds to a non-project module (optional third-party back ends), names tested with hasattr()/getattr() in
+#  the same function.
+
+UNDEFINED_OK = {
+    ("query.compound.SplitOr.matcher", "ArrayMatcher"):
+        "SplitOr is a leftover experiment that no query, parser or matcher_type setting ever builds (Or's SPLIT_MATCHER setting does not "
+        "use it either); it refers to a matcher API that was never merged. Not one of the public query types the properties quantify over",
+    ("query.compound.SplitOr.matcher", "limit_quality"): "as above",
+    ("query.compound.SplitOr.matcher", "set_min_quality"): "as above",
+    ("writing.add_spelling", "FST_EXT"):
+        "legacy helper for the FST word graphs removed with whoosh.automata.fst: its first statement (`from whoosh.automata import fst`) "
+        "already raises ImportError, nothing calls it",
+    ("writing.add_spelling", "GraphWriter"): "as above",
+    ("qparser.dateparse.Time12.props_to_date", "ampm"): "Props objects take their attributes from the named groups of the element's regular expression",
+    ("qparser.dateparse.Time12.props_to_date", "mins"): "as above",
+    ("qparser.dateparse.Time12.props_to_date", "secs"): "as above",
+    ("qparser.dateparse.Time12.props_to_date", "usecs"): "as above",
+    ("matching.mcore.ConstantScoreMatcher.skip_to_quality", "go_inactive"):
+        "the only concrete subclass (ColumnMatcher) overrides skip_to_quality; judged per constructed class by C11-R9",
+    ("util.synchronized", "_sync_lock"): "documented requirement on the decorated object; the decorator is applied nowhere",
+}
+
+_UNIVERSE = {}
+
+
+def _stdlib_names(prog):
+    import importlib
+    import types
+    import io
+    import array
+    import struct
+    import datetime
+    import re
+    import threading
+    import collections
+    import decimal
+    import logging
+    import queue
+    import time
+    import zlib
+    ext = set()
+
+    def harvest(o):
+        try:
+            ext.update(dir(o))
+        except Exception:
+            pass
+    for t in (str, bytes, bytearray, list, dict, set, frozenset, tuple, int, float, complex, object, type, BaseException, OSError,
+              memoryview, slice, range, types.FunctionType, types.GeneratorType, types.MethodType, types.ModuleType, property):
+        harvest(t)
+    mods = set()
+    for m in prog.modules.values():
+        for n in ast.walk(m.tree):
+            if isinstance(n, ast.Import):
+                mods.update(a.name for a in n.names)
+            elif isinstance(n, ast.ImportFrom) and n.level == 0 and n.module and not n.module.startswith("whoosh"):
+                mods.add(n.module)
+    for name in sorted(mods):
+        if name.split(".")[0] == "whoosh":
+            continue
+        try:
+            mod = importlib.import_module(name)
+        except Exception:
+            continue
+        harvest(mod)
+        for k in dir(mod):
+            try:
+                v = getattr(mod, k)
+            except Exception:
+                continue
+            if isinstance(v, (type, types.ModuleType)) or callable(v):
+                harvest(v)
+    gen = (lambda: (yield))()
+    for inst in (io.BytesIO(), io.StringIO(), array.array("i"), struct.Struct("i"), datetime.datetime(2000, 1, 1), datetime.date(2000, 1, 1),
+                 datetime.timedelta(1), re.compile("a"), re.match("a", "a"), threading.Lock(), threading.RLock(), threading.Event(),
+                 collections.deque(), collections.defaultdict(), decimal.Decimal(1), logging.getLogger("wv"), queue.Queue(), gen,
+                 time.localtime(0), zlib.compressobj(), zlib.decompressobj()):
+        harvest(inst)
+    gen.close()
+    return ext
+
+
+def attribute_universe(prog):
+    key = id(prog)
+    if key in _UNIVERSE:
+        return _UNIVERSE[key]
+    defined = set()
+    for m in prog.modules.values():
+        for n in ast.walk(m.tree):
+            if isinstance(n, (ast.FunctionDef, ast.ClassDef, ast.AsyncFunctionDef)):
+                defined.add(n.name)
+            elif isinstance(n, ast.Attribute) and isinstance(n.ctx, (ast.Store, ast.Del)):
+                defined.add(n.attr)
+            elif isinstance(n, ast.Name) and isinstance(n.ctx, ast.Store):
+                defined.add(n.id)
+            elif isinstance(n, ast.Call) and isinstance(n.func, ast.Name) and n.func.id == "setattr" and len(n.args) >= 2 \
+                    and isinstance(n.args[1], ast.Constant) and isinstance(n.args[1].value, str):
+                defined.add(n.args[1].value)
+            elif isinstance(n, ast.keyword) and n.arg:
+                defined.add(n.arg)
+            elif isinstance(n, ast.arg):
+                defined.add(n.arg)
+            elif isinstance(n, ast.alias):
+                defined.add((n.asname or n.name).split(".")[0])
+    _UNIVERSE.clear()
+    _UNIVERSE[key] = (defined, _stdlib_names(prog))
+    return _UNIVERSE[key]
+
+
+def _foreign_module_names(prog, f):
+    """local names that an import (module level or inside f) binds to something outside the package"""
+    out = set()
+    for tree in (f.module.tree, f.node):
+        for n in ast.walk(tree):
+            if isinstance(n, ast.Import):
+                for a in n.names:
+                    if a.name.split(".")[0] != "whoosh":
+                        out.add((a.asname or a.name).split(".")[0])
+            elif isinstance(n, ast.ImportFrom) and n.level == 0 and n.module and n.module.split(".")[0] != "whoosh":
+                for a in n.names:
+                    out.add(a.asname or a.name)
+    # a local that holds what a call into such a module returned (`stemmer = Stemmer.Stemmer(lang)`)
+    for n in ast.walk(f.node):
+        if isinstance(n, ast.Assign) and len(n.targets) == 1 and isinstance(n.targets[0], ast.Name):
+            base = n.value
+            while isinstance(base, (ast.Attribute, ast.Call, ast.Subscript)):
+                base = base.func if isinstance(base, ast.Call) else base.value
+            if isinstance(base, ast.Name) and base.id in out:
+                out.add(n.targets[0].id)
+    return out
+
+
+def undefined_attribute_names(prog, funcs):
+    defined, ext = attribute_universe(prog)
+    n = 0
+    out = []
+    for f in funcs:
+        probed = set()
+        for c in norm.calls_in(f.node):
+            if isinstance(c.func, ast.Name) and c.func.id in ("hasattr", "getattr") and len(c.args) >= 2 \
+                    and isinstance(c.args[1], ast.Constant):
+                probed.add(c.args[1].value)
+        foreign = None
+        for x in ast.walk(f.node):
+            if not (isinstance(x, ast.Attribute) and isinstance(x.ctx, ast.Load)):
+                continue
+            n += 1
+            if x.attr in defined or x.attr in ext or x.attr in probed or (f.short, x.attr) in UNDEFINED_OK:
+                continue
+            if foreign is None:
+                foreign = _foreign_module_names(prog, f)
+            base = x.value
+            while isinstance(base, (ast.Attribute, ast.Call, ast.Subscript)):
+                base = base.func if isinstance(base, ast.Call) else base.value
+            if isinstance(base, ast.Name) and base.id in foreign:
+                continue
+            out.append((f, x))
+    return n, out
+
+
+def _make_g3(pid):
+    def g3(ctx):
+        prog = ctx.prog
+        funcs = anchor_funcs(prog, pid)
+        n, bad = undefined_attribute_names(prog, funcs)
+        if n < 100:
+            raise AnalysisError("%s-G3: only %d attribute reads in the anchor files" % (pid, n))
+        ctx.ob("%s anchor files" % pid, True, "%d attribute reads checked against the names the package and the standard library define" % n)
+        seen = set()
+        for f, x in bad:
+            if (f.short, x.attr) in seen:
+                continue
+            seen.add((f.short, x.attr))
+            ctx.ob(f, False, "attribute `%s` exists somewhere" % x.attr,
+                   detail="line %d reads `%s`: no class, function, assignment or parameter of the package and no standard-library "
+                          "object defines a `%s` -- AttributeError as soon as the statement runs" % (x.lineno, norm.canon(x), x.attr),
+                   loc=ctx.nodeloc(f, x))
+    return g3
+
+
+for _p in _properties():
+    rule(_p["id"], "G3", "K10", "no attribute is read that nothing in the package or the standard library defines",
+         clause="Names only: the rule decides that an attribute name read in the property's anchor code exists at all (a method that "
+                "was removed or renamed while a caller remained, a misspelt attribute). Reviewed exceptions: generic.UNDEFINED_OK; reads "
+                "off modules imported from outside the package and names probed with hasattr/getattr are not judged.")(_make_g3(_p["id"]))
